@@ -52,6 +52,7 @@ type Obligation struct {
 type Ctx struct {
 	prog            *Program
 	unitName        string
+	unitContract    *Contract
 	decls           []string
 	declared        map[string]Sort
 	dtDecls         map[string]bool
